@@ -3,8 +3,11 @@
    The reachable states quantify over ANY number of callers (sessions of any clients), ANY scripts of
    create / delete / update / lookup on any names and Host strings, ANY pattern of failing storage calls, ANY
    lookup times, ANY contents of the legacy registry and of cloud control, and ANY schedule.
-   Variant proved: the repaired removal path (removeMappingKeys) over an atomic, never-reset id counter; the pinned
-   DeleteMapping, the get-then-set Incr of hybrid.Storage and the loss of the counter key are refuted below.
+   The scripts may contain the environment event "the clock passes the counter key's deadline" (OResetCounter) anywhere.
+   Variant proved: the repaired removal path (removeMappingKeys), an atomic Incr, and the repaired generateMappingID
+   (the counter key is created without a deadline before Incr, so it can never vanish); the pinned DeleteMapping, the
+   former get-then-set Incr of hybrid.Storage and the pinned generateMappingID (counter with the 24 h default TTL) are
+   refuted below.
    Ghost log: EvClaim n i c  = SetNX on the index of n succeeded for mapping i of client c;
               EvRelease n i c = the index entry of n was deleted on behalf of mapping i by client c;
               EvWrite i c t   = the record of mapping i was written by client c with target t.          (newest first) *)
@@ -18,7 +21,7 @@ Local Open Scope N_scope.
 Theorem C19_single_owner :
   forall (reg cloud : name -> option pmap) (ts : list thr) (sched : list nat),
   (forall t, In t ts -> fresh_thr t) ->
-  let s := drun true true reg cloud empty_store ts sched in
+  let s := drun true true true reg cloud empty_store ts sched in
   (forall n, idx (fst s) n = holder n (log (fst s))) /\
   (forall l1 l2 n i c, log (fst s) = l1 ++ EvClaim n i c :: l2 -> holder n l2 = None) /\
   (forall l1 l2 n i c, log (fst s) = l1 ++ EvRelease n i c :: l2 -> holder n l2 = Some i /\ In (EvClaim n i c) l2) /\
@@ -33,7 +36,7 @@ Print Assumptions C19_single_owner.
 Theorem C19_routes_to_owner_or_rejects :
   forall (reg cloud : name -> option pmap) (ts : list thr) (sched : list nat),
   (forall t, In t ts -> fresh_thr t) ->
-  let s := drun true true reg cloud empty_store ts sched in
+  let s := drun true true true reg cloud empty_store ts sched in
   forall t h i c tg, In t (snd s) -> In (RRouted 1 h i c tg) (out t) ->
   In (EvClaim (extractDomain h) i c) (log (fst s)) /\ In (EvWrite i c tg) (log (fst s)) /\
   (forall n' c', In (EvClaim n' i c') (log (fst s)) -> n' = extractDomain h /\ c' = c).
@@ -45,7 +48,7 @@ Print Assumptions C19_routes_to_owner_or_rejects.
 Theorem C19_lookup_at_any_time :
   forall (reg cloud : name -> option pmap) (ts : list thr) (sched : list nat),
   (forall t, In t ts -> fresh_thr t) ->
-  let s := drun true true reg cloud empty_store ts sched in
+  let s := drun true true true reg cloud empty_store ts sched in
   forall h now h' i c tg, lookup_now reg cloud (fst s) h now = RRouted 1 h' i c tg ->
   h' = h /\ holder (extractDomain h) (log (fst s)) = Some i /\
   In (EvClaim (extractDomain h) i c) (log (fst s)) /\ In (EvWrite i c tg) (log (fst s)) /\
@@ -59,7 +62,7 @@ Theorem C19_only_owner_deletes :
   forall (reg cloud : name -> option pmap) t s r rest m fs,
   pc t = Idle -> ops t = ODelete r :: rest -> next_fault t = (false, fs) ->
   recs s (resolve t r) = Some m -> r_client m <> cl t ->
-  dstep true true reg cloud t s = (finish t fs (RErr EForbidden), s).
+  dstep true true true reg cloud t s = (finish t fs (RErr EForbidden), s).
 Proof. exact foreign_delete_refused. Qed.
 Print Assumptions C19_only_owner_deletes.
 
@@ -69,13 +72,13 @@ Print Assumptions C19_only_owner_deletes.
 Theorem C19_deleted_stops_routing_and_is_reclaimable :
   forall (reg cloud : name -> option pmap) (ts : list thr) (sched : list nat),
   (forall t, In t ts -> fresh_thr t) ->
-  let s := drun true true reg cloud empty_store ts sched in
+  let s := drun true true true reg cloud empty_store ts sched in
   forall n i c l, log (fst s) = EvRelease n i c :: l ->
   In (EvClaim n i c) l /\
   idx (fst s) n = None /\
   (forall h now h' i' c' tg, extractDomain h = n -> lookup_now reg cloud (fst s) h now <> RRouted 1 h' i' c' tg) /\
   (forall t i' tgt fs, pc t = PCSetNX i' n tgt -> next_fault t = (false, fs) ->
-     decide true true reg cloud t (fst s) = (goto t fs (PCSetRec i' n tgt), AClaim n i' (cl t))).
+     decide true true true reg cloud t (fst s) = (goto t fs (PCSetRec i' n tgt), AClaim n i' (cl t))).
 Proof. intros reg cloud ts sched H s n i c l. exact (deleted_stops_routing_and_is_reclaimable reg cloud ts sched H n i c l). Qed.
 Print Assumptions C19_deleted_stops_routing_and_is_reclaimable.
 
@@ -100,7 +103,7 @@ Print Assumptions C19_owner_delete_completes.
 Theorem C19_inactive_or_expired_rejected :
   forall (reg cloud : name -> option pmap) t s h n i now m fs,
   pc t = PCLRec h n i now -> next_fault t = (false, fs) -> recs s i = Some m -> is_active m now = false ->
-  dstep true true reg cloud t s = (finish t fs (RErr (if is_expired m now then EForbidden else EUnavailable)), s).
+  dstep true true true reg cloud t s = (finish t fs (RErr (if is_expired m now then EForbidden else EUnavailable)), s).
 Proof. exact inactive_or_expired_step. Qed.
 Print Assumptions C19_inactive_or_expired_rejected.
 
@@ -133,7 +136,7 @@ Print Assumptions C19_host_resolves_only_to_its_own_name.
 (* pinned DeleteMapping (unconditional index delete): a repeated delete of mapping 1 racing a re-claim removes the
    NEW owner's index entry — client 2's create succeeded, its mapping 2 was never deleted, yet the name has no owner. *)
 Theorem C19_pinned_delete_reclaim_refuted :
-  let s := drun false true none_legacy none_legacy empty_store race_threads race_sched_pinned in
+  let s := drun false true false none_legacy none_legacy empty_store race_threads race_sched_pinned in
   map out (snd s) = [[RDeleted; RCreated 1]; [RDeleted]; [RCreated 2]; [RErr ENotFound]] /\
   recs (fst s) 2 = Some {| r_name := host_a; r_client := 2; r_target := 22; r_status := StActive; r_exp := 0 |} /\
   idx (fst s) host_a = None /\
@@ -141,22 +144,41 @@ Theorem C19_pinned_delete_reclaim_refuted :
 Proof. exact pinned_delete_reclaim_refuted. Qed.
 Print Assumptions C19_pinned_delete_reclaim_refuted.
 
-(* Incr as get-then-set (hybrid.Storage.Incr): two creates of different names draw the same id, the later record
+(* Incr as get-then-set (hybrid.Storage.Incr before d88dca0): two creates of different names draw the same id, the later record
    overwrites the earlier, and the first name — claimed by client 1 — routes to client 2's target. *)
 Theorem C19_nonatomic_incr_refuted :
-  let s := drun true false none_legacy none_legacy empty_store dup_threads dup_sched in
+  let s := drun true false false none_legacy none_legacy empty_store dup_threads dup_sched in
   map out (snd s) = [[RCreated 1]; [RCreated 1]; [RRouted 1 host_a 1 2 22]] /\
   In (EvClaim host_a 1 1) (log (fst s)).
 Proof. exact nonatomic_incr_refuted. Qed.
 Print Assumptions C19_nonatomic_incr_refuted.
 
-(* the counter key disappears (24 h TTL that memory.Storage.IncrBy puts on a new counter): ids start again at 1. *)
+(* pinned generateMappingID: the counter is created by IncrBy with the 24 h default data TTL and never refreshed; once the
+   clock passes it the key disappears and ids start again at 1 while the old record and index are still there. *)
 Theorem C19_counter_reset_refuted :
-  let s := drun true true none_legacy none_legacy empty_store reset_threads reset_sched in
+  let s := drun true true false none_legacy none_legacy empty_store reset_threads reset_sched in
   map out (snd s) = [[RCreated 1]; [RReset]; [RCreated 1]; [RRouted 1 host_a 1 2 22]] /\
   In (EvClaim host_a 1 1) (log (fst s)).
 Proof. exact counter_reset_refuted. Qed.
 Print Assumptions C19_counter_reset_refuted.
+
+(* repaired generateMappingID, same callers, same clock event: nothing happens to the counter, ids stay unique and
+   the first name keeps routing to its owner (the general statement is C19_routes_to_owner_or_rejects, whose scripts
+   may contain the clock event) *)
+Theorem C19_counter_deadline_harmless :
+  let s := drun true true true none_legacy none_legacy empty_store reset_threads reset_sched_fixed in
+  map out (snd s) = [[RCreated 1]; [RReset]; [RCreated 2]; [RRouted 1 host_a 1 1 11]] /\
+  cttl (fst s) = false /\ next (fst s) = 2.
+Proof. exact counter_reset_harmless_run. Qed.
+Print Assumptions C19_counter_deadline_harmless.
+
+(* in every reachable state of the repaired variant the counter key carries no deadline *)
+Theorem C19_counter_never_expires :
+  forall (reg cloud : name -> option pmap) (ts : list thr) (sched : list nat),
+  (forall t, In t ts -> fresh_thr t) ->
+  cttl (fst (drun true true true reg cloud empty_store ts sched)) = false.
+Proof. intros reg cloud ts sched H. exact (reach_counter_no_deadline reg cloud ts sched H). Qed.
+Print Assumptions C19_counter_never_expires.
 
 (* ---- non-vacuity ------------------------------------------------------------------------------------------------ *)
 
@@ -167,7 +189,7 @@ Proof. exact race_threads_fresh. Qed.
 Print Assumptions C19_premises_satisfiable.
 
 Theorem C19_repaired_run :
-  let s := drun true true none_legacy none_legacy empty_store race_threads race_sched_fixed in
+  let s := drun true true true none_legacy none_legacy empty_store race_threads race_sched_fixed in
   map out (snd s) = [[RDeleted; RCreated 1]; [RDeleted]; [RCreated 2]; [RRouted 1 host_a_port 2 2 22]] /\
   idx (fst s) host_a = Some 2 /\
   stale_release (log (fst s)) = false.
